@@ -16,6 +16,7 @@ FromPartialAct(D, S) == cur = Anchor /\ LET p == [k \in S |-> D[k]] IN last' = [
 NegAct == last' = [op |-> "negated", a |-> cur, out |-> Ok(NegDur(cur))] /\ cur' = NegDur(cur)
 AbsAct == last' = [op |-> "abs", a |-> cur, out |-> Ok(AbsDur(cur))] /\ cur' = AbsDur(cur)
 SignAct == last' = [op |-> "sign", a |-> cur, out |-> Ok(DurSign(cur))] /\ cur' = cur
+InRangeAct == last' = [op |-> "timeInRange", a |-> cur, out |-> Ok(TimeFieldsInRange(cur))] /\ cur' = cur
 AddAct(b) == LET o == DurAdd(cur, b) IN last' = [op |-> "add", a |-> cur, b |-> b, out |-> o] /\ cur' = Move(o)
 SubAct(b) == LET o == DurSub(cur, b) IN last' = [op |-> "subtract", a |-> cur, b |-> b, out |-> o] /\ cur' = Move(o)
 CmpAct(b) == last' = [op |-> "compare", a |-> cur, b |-> b, out |-> DurCompare(cur, b)] /\ cur' = cur
@@ -25,7 +26,7 @@ TotalAct(u) == last' = [op |-> "total", a |-> cur, u |-> u, out |-> DurTotal(cur
 Next == /\ (OneStep => last = None)
         /\ \/ \E D \in Candidates : NewAct(D)
            \/ \E D \in Candidates, S \in KeySets : FromPartialAct(D, S)
-           \/ NegAct \/ AbsAct \/ SignAct
+           \/ NegAct \/ AbsAct \/ SignAct \/ InRangeAct
            \/ \E b \in Durs : AddAct(b) \/ SubAct(b) \/ CmpAct(b)
            \/ \E o \in RoundOpts : RoundAct(o)
            \/ \E u \in {"day", "hour", "minute", "second", "millisecond", "microsecond", "nanosecond", "week", "auto"} : TotalAct(u)
